@@ -1,6 +1,8 @@
 // Correspondence harness for quaint_ptr / optional (C18) and env::get / dl (C19).
 #include "common.hpp"
 
+#include <new>
+
 #include <nitro/dl/dl.hpp>
 #include <nitro/env/get.hpp>
 #include <nitro/lang/optional.hpp>
@@ -295,6 +297,27 @@ static std::string run_optional(const std::string& ops)
                         (tmp && Elem<E>::value(*tmp) != Elem<E>::value(*tmp2)))
                         res = "COPIES-DIFFER ";
                     c[i] = tmp;
+                }
+                else if (t[0] == "cpk")
+                {
+                    // slot i is rebuilt as a copy-constructed object that stays (i != j)
+                    std::size_t j = std::stoul(t[2]);
+                    if (i != j)
+                    {
+                        c[i].~O();
+                        new (&c[i]) O(c[j]);
+                    }
+                }
+                else if (t[0] == "mvk")
+                {
+                    // slot i is rebuilt by move construction from a copy of slot j
+                    std::size_t j = std::stoul(t[2]);
+                    if (i != j)
+                    {
+                        O tmp(c[j]);
+                        c[i].~O();
+                        new (&c[i]) O(std::move(tmp));
+                    }
                 }
                 else if (t[0] == "clr")
                     c[i] = O();
